@@ -110,10 +110,10 @@ package apd
 //@ func (*BigInt).updateInner
 //@   trusted unsafe bridge: adopts src's words or switches to a fresh heap big.Int; exercised by the bounded differential check
 //@   layer bigint
-//@   requires writable(z) && src != nil && !negzero(src)
+//@   requires writable(z) && src != nil
 //@   assigns z
 //@   allocates
-//@   ensures val(z) == old(val(src)) && rep(z) && (heapform(z) ==> (z._inner == old(z._inner) || isfresh(z._inner)))
+//@   ensures val(z) == old(val(src)) && (!old(negzero(src)) ==> rep(z)) && (heapform(z) ==> (z._inner == old(z._inner) || isfresh(z._inner)))
 
 //@ func math/big.(*Int).Abs
 //@   trusted math/big documented semantics; operands may alias; only the receiver is written
@@ -377,7 +377,7 @@ package apd
 //@   trusted math/big (x**y, or x**y mod |m| for a non-zero m; 1 for y <= 0 without modulus; nil and z unchanged when y < 0 and x, m are not coprime; operand aliasing is detected on the words); the base-10 clause is the same fact stated with pow10
 //@   nilable m
 //@   assigns *z
-//@   ensures (ret == nil || ret == z) && (ret == nil ==> val(z) == old(val(z)) && m != nil && old(val(m)) != 0 && old(val(y)) < 0) && (ret == z ==> !negzero(z)) && (ret == nil ==> (negzero(z) <==> old(negzero(z))))
+//@   ensures (ret == nil || ret == z) && (ret == nil ==> val(z) == old(val(z)) && m != nil && old(val(m)) != 0 && old(val(y)) < 0) && (ret == z ==> !negzero(z)) && (ret == nil ==> (negzero(z) <==> old(negzero(z))) && wordskept(z))
 //@   ensures (m == nil || old(val(m)) == 0) ==> (ret == z && val(z) == ite(old(val(y)) <= 0, 1, uf_pow(old(val(x)), old(val(y)))))
 //@   ensures (m == nil || old(val(m)) == 0) && old(val(x)) == 10 && old(val(y)) >= 0 ==> val(z) == pow10(old(val(y)))
 //@   ensures m != nil && old(val(m)) != 0 && ret == z ==> val(z) == uf_expmod(old(val(x)), old(val(y)), old(val(m)))
@@ -2033,7 +2033,7 @@ package apd
 //@   trusted math/big (nil and z unchanged when g and n are not relatively prime; n == 0 divides by zero)
 //@   requires val(n) != 0
 //@   assigns *z
-//@   ensures (ret == nil || ret == z) && (ret == nil ==> val(z) == old(val(z))) && (ret == z ==> val(z) == uf_modinv(old(val(g)), old(val(n)))) && (ret == z ==> !negzero(z)) && (ret == nil ==> (negzero(z) <==> old(negzero(z))))
+//@   ensures (ret == nil || ret == z) && (ret == nil ==> val(z) == old(val(z))) && (ret == z ==> val(z) == uf_modinv(old(val(g)), old(val(n)))) && (ret == z ==> !negzero(z)) && (ret == nil ==> (negzero(z) <==> old(negzero(z))) && wordskept(z))
 //@ func (*BigInt).ModInverse
 //@   layer bigint
 //@   props C16 C05 C06
@@ -2069,11 +2069,20 @@ package apd
 // Strings are opaque codes; strings.HasPrefix is the uninterpreted uf_hasprefix. What is proved is the plumbing that makes the parsed
 // value well formed: the form is one of the four, and the coefficient handed to setExponent is non-negative because a mantissa that
 // starts with a sign is rejected before math/big parses it.
+//@ func math/big.(*Int).SetString
+//@   trusted math/big's parser (an optional sign, then digits in the given base): on failure nil is returned and the value of z is undefined (but a value); a negative result implies the text starts with "-"
+//@   requires base == 0 || (2 <= base && base <= 62)
+//@   assigns *z
+//@   ensures (ret0 == nil || ret0 == z) && (ret1 <==> ret0 != nil) && (ret1 ==> !negzero(z)) && (ret1 && val(z) < 0 ==> uf_hasprefix(s, "-") == 1)
 //@ func (*BigInt).SetString
-//@   trusted math/big's parser (an optional sign, then digits in the given base): a negative result implies the text starts with "-"
+//@   layer bigint
+//@   props C16 C04
+//@   requires writable(z) && rep(z) && (base == 0 || (2 <= base && base <= 62))
 //@   assigns z
 //@   outs z
-//@   ensures (ret0 == nil || ret0 == z) && (ret1 <==> ret0 != nil) && (ret1 && val(z) < 0 ==> uf_hasprefix(s, "-") == 1)
+//@   allocates
+//@   local i assume i < 0 ==> uf_hasprefix(s, "-") == 1 because strconv.ParseInt returns a negative number only for a text that starts with "-"
+//@   ensures (ret0 == nil || ret0 == z) && (ret1 <==> ret0 != nil) && (ret1 ==> rep(z)) && (ret1 && val(z) < 0 ==> uf_hasprefix(s, "-") == 1)
 //@ func consumePrefix
 //@   props C04
 //@   pure
@@ -2169,3 +2178,37 @@ package apd
 //@   assigns d
 //@   outs d when ret == nil
 //@   ensures [wf] ret == nil ==> inv(d)
+// ---------------------------------------------------------------- decoders: after a failed decode the receiver is still a BigInt (C16: arbitrary preceding method sequences)
+//@ func math/big.(*Int).UnmarshalText
+//@   trusted math/big (on failure the value of z is undefined: math/big can leave a zero with the sign flag of the previous value)
+//@   assigns *z
+//@   ensures ret == nil ==> !negzero(z)
+//@ func math/big.(*Int).UnmarshalJSON
+//@   trusted math/big (on failure the value of z is undefined: math/big can leave a zero with the sign flag of the previous value)
+//@   assigns *z
+//@   ensures ret == nil ==> !negzero(z)
+//@ func math/big.(*Int).GobDecode
+//@   trusted math/big (on failure the value of z is undefined)
+//@   assigns *z
+//@   ensures ret == nil ==> !negzero(z)
+//@ func (*BigInt).UnmarshalText
+//@   layer bigint
+//@   props C16 C04
+//@   requires writable(z) && rep(z)
+//@   assigns z
+//@   allocates
+//@   ensures ret == nil ==> rep(z)
+//@ func (*BigInt).UnmarshalJSON
+//@   layer bigint
+//@   props C16 C04
+//@   requires writable(z) && rep(z)
+//@   assigns z
+//@   allocates
+//@   ensures ret == nil ==> rep(z)
+//@ func (*BigInt).GobDecode
+//@   layer bigint
+//@   props C16 C04
+//@   requires writable(z) && rep(z)
+//@   assigns z
+//@   allocates
+//@   ensures ret == nil ==> rep(z)
